@@ -22,6 +22,10 @@ pub enum Snippet {
     /// host action between two snippets: the loader starts to serve this module (it was missing, or
     /// its text did not compile), as when a user creates or repairs the file while the REPL is open
     Provide(&'static str),
+    /// the host replaces the text it serves for a module by a second edition (another tag, a counter
+    /// that starts elsewhere): a module already loaded stays what it is; after a reset the next import
+    /// loads what the host serves now
+    Replace(&'static str),
 }
 
 const BAD: &[&str] = &["var = 3;", "fn f( { }", "print(1;", "class { }", "\"unterminated", "var ok_before = 1; print(ok_before; var never = 2;", "}", "return 1;"];
@@ -82,10 +86,19 @@ fn parse_free_modules() -> Vec<(String, ModuleSrc)> {
 const LATE: [&str; 2] = ["mc", "md"];
 
 fn late_module(name: &str) -> Vec<Stmt> {
+    late_module_edition(name, 1)
+}
+
+fn late_module_edition(name: &str, edition: u32) -> Vec<Stmt> {
+    let (load, tag, start) = if edition <= 1 {
+        (format!("load {}", name), name.to_string(), 0.0)
+    } else {
+        (format!("load {} (edition {})", name, edition), format!("{} edition {}", name, edition), 100.0 * edition as f64)
+    };
     let body = vec![
-        Stmt::print(Expr::str(&format!("load {}", name))),
-        Stmt::var("tag", Some(Expr::str(name))),
-        Stmt::var("count", Some(Expr::Num(0.0))),
+        Stmt::print(Expr::str(&load)),
+        Stmt::var("tag", Some(Expr::str(&tag))),
+        Stmt::var("count", Some(Expr::Num(start))),
         Stmt::new(StmtKind::Fn(Rc::new(FnDef {
             name: std::cell::RefCell::new("bump".to_string()),
             params: vec![],
@@ -617,7 +630,21 @@ pub fn history(bytes: &[u8]) -> (Vec<Snippet>, Vec<&'static str>) {
                         Stmt::print(Expr::get(Expr::var(m), "tag")),
                         Stmt::print(Expr::invoke(Expr::var(m), "bump", vec![])),
                     ];
-                    v.push(Snippet::Code(again, "import_late"));
+                    v.push(Snippet::Code(again.clone(), "import_late"));
+                    if g.rd.chance(1, 2) {
+                        // the host moves on to a second edition of the text: the loaded module stays,
+                        // and an interpreter that has been reset loads the new one like a fresh one would
+                        v.push(Snippet::Replace(m));
+                        labels.push("replace_module");
+                        v.push(Snippet::Code(again.clone(), "import_after_replace"));
+                        if g.rd.chance(2, 3) {
+                            v.push(Snippet::Reset);
+                            labels.push("reset");
+                            g.forget_globals();
+                            v.push(Snippet::Code(again, "import_new_edition_after_reset"));
+                            labels.push("import_new_edition_after_reset");
+                        }
+                    }
                 }
             }
             _ => {
@@ -644,6 +671,7 @@ fn render_history(h: &[Snippet]) -> String {
             Snippet::Bad(t) => s.push_str(&format!("{}\n", t)),
             Snippet::Reset => s.push_str("<reset()>\n"),
             Snippet::Provide(m) => s.push_str(&format!("<host: the loader now serves a good text for module {}>\n", m)),
+            Snippet::Replace(m) => s.push_str(&format!("<host: the loader now serves a second edition of module {}>\n", m)),
         }
     }
     s
@@ -662,7 +690,7 @@ impl Property for C15 {
     }
 
     fn rule(&self) -> String {
-        "cases: histories of 2-12 snippets fed to one interpreter through vm::interpret (as the REPL does): generated code that defines and uses globals, functions and classes across snippets; snippets that do not compile; snippets that complete some definitions and then end in an uncaught error (top-level throw, throw from nested calls, inside a fiber, inside try/finally, during a class definition, in a constructor, a missing import, a built-in error); imports of two modules (one importing the other) that must persist; imports of a module that is missing and of one that does not compile, guarded and unguarded, followed — as a host action between snippets — by the loader starting to serve a good text, after which the same import must load it (once) and later imports find it loaded; probes with try/finally, try/catch/finally and a fiber; and reset(). Oracle: the reference interpreter fed the same history piecewise (a brand-new reference interpreter after reset), compared per snippet: printed values, outcome, error kind, report and trace; a panic in any snippet is a violation. Non-trivial: a failing snippet is followed by a probe or by code using earlier definitions; distinct by the rendered history.".into()
+        "cases: histories of 2-12 snippets fed to one interpreter through vm::interpret (as the REPL does): generated code that defines and uses globals, functions and classes across snippets; snippets that do not compile; snippets that complete some definitions and then end in an uncaught error (top-level throw, throw from nested calls, inside a fiber, inside try/finally, during a class definition, in a constructor, a missing import, a built-in error); imports of two modules (one importing the other) that must persist; imports of a module that is missing and of one that does not compile, guarded and unguarded, followed — as a host action between snippets — by the loader starting to serve a good text, after which the same import must load it (once) and later imports find it loaded; the host then replacing that text by a second edition, which a loaded module ignores and an interpreter that was reset loads like a new one; probes with try/finally, try/catch/finally and a fiber; and reset(). Oracle: the reference interpreter fed the same history piecewise (a brand-new reference interpreter after reset), compared per snippet: printed values, outcome, error kind, report and trace; a panic in any snippet is a violation. Non-trivial: a failing snippet is followed by a probe or by code using earlier definitions; distinct by the rendered history.".into()
     }
 
     fn assumptions(&self) -> Vec<String> {
@@ -721,6 +749,14 @@ impl Property for C15 {
                     yrun::set_module(m, Some(render(&body)));
                     sh.sources.borrow_mut().insert(m.to_string(), ModuleSrc::Ast(body.clone()));
                     // what the host serves outlives a reset of the interpreter
+                    mods_ast.retain(|(p, _)| p != m);
+                    mods_ast.push((m.to_string(), ModuleSrc::Ast(body)));
+                }
+                Snippet::Replace(m) => {
+                    rendered.push_str(&format!("--- after snippet {}: the loader now serves a second edition of module {}\n", i, m));
+                    let body = late_module_edition(m, 2);
+                    yrun::set_module(m, Some(render(&body)));
+                    sh.sources.borrow_mut().insert(m.to_string(), ModuleSrc::Ast(body.clone()));
                     mods_ast.retain(|(p, _)| p != m);
                     mods_ast.push((m.to_string(), ModuleSrc::Ast(body)));
                 }
@@ -829,7 +865,7 @@ impl Property for C15 {
             ("snippets", 30_000),
             ("gen:compile_error", 2_000),
             ("gen:reset", 1_000),
-            ("gen:throw_in_fiber", 300), ("gen:probe_waiting_fiber", 500), ("gen:redefined_builtin_probe", 1_000),
+            ("gen:throw_in_fiber", 300), ("gen:probe_waiting_fiber", 500), ("gen:redefined_builtin_probe", 1_000), ("gen:import_new_edition_after_reset", 300),
             ("gen:throw_in_try_finally", 300),
             ("gen:probe_after_failure", 1_000),
             ("gen:import", 2_000), ("gen:import_late", 2_000), ("gen:import_failing_module", 1_500), ("gen:provide_module", 1_000),
